@@ -41,7 +41,14 @@ MANIFEST = {
             "(SF_GCC_X86_BITFIELDS, little endian); the MSVC/ARM/big-endian branches are modelled and compared with the "
             "backend through complete_struct_or_union(sflags) but have no theorem and no compiler oracle; forced "
             "offsets ('...' structs) and C integer overflow of sizes are not modelled; x & ~(a-1) is modelled as "
-            "x - x % a (justified for powers of two by andnot_eq_alignDown). Alignments are assumed to be 1,2,4,8,16.",
+            "x - x % a (justified for powers of two by andnot_eq_alignDown). Alignments are assumed to be 1,2,4,8,16. "
+            "The arithmetic and the conditions of the x86-64/gcc path are regenerated from the C source each run "
+            "(translate/layout_exprs.py, 25 ordered extraction points); the control structure of the loop, the list "
+            "handling and the rejection tests on ct_flags are hand-modelled; C subtraction is truncated subtraction on Nat. "
+            "The Lean model takes the packing as part of each aggregate's declaration; WHICH cdef() option (packed=/pack=) "
+            "applies to which aggregate (the one of the cdef() that contains its field list, not the one that first "
+            "mentions its tag) is Python-side and covered only by the deterministic 'mention' correspondence family "
+            "against gcc.",
     "technique": "translator (C expressions of the field loop -> Generated/LayoutExprs.lean) + Lean 4 proof (simulation relation between cffi's (byte,bit) state and a bit cursor, induction over "
                  "the field list and over nesting) + differential correspondence with the real backend and real gcc",
 }
@@ -51,7 +58,10 @@ RULE = ("random struct/union declarations, nesting <= 4, <= 12 fields per aggreg
         "anonymous aggregates, bit-fields of signed/unsigned integer types and _Bool (named, unnamed, zero width; "
         "widths biased to 1, unit-1, unit and to crossing a unit boundary), a trailing flexible array, "
         "packed=True / pack=N (no bit-fields); plus a few out-of-class probes (packing with bit-fields, bad widths) "
-        "for the error branches of the model. One evaluation = one aggregate type; non-trivial = it has a "
+        "for the error branches of the model; plus, in every run, the deterministic family where a tag is only mentioned "
+        "(forward declaration, typedef, pointer member, pointer argument, ffi.typeof) under packing P1 and defined in a later "
+        "cdef() under P2 != P1 (all pairs of none/packed/pack=1,2,4, structs and unions, and the reverse dependency order). "
+        "One evaluation = one aggregate type; non-trivial = it has a "
         "bit-field, a nested aggregate, packing, or >= 3 members; distinct = distinct canonical declaration")
 ASSUMPTIONS = ["gcc 12 x86-64 SysV is the platform C compiler (the oracle program is compiled by it)",
                "declarations reach the backend through ffi.cdef without '...' (no forced offsets, totalsize = -1)"]
@@ -98,7 +108,7 @@ class Agg(object):
 
 
 class Field(object):
-    """base: ("prim", cname) | ("ptr", index into POINTERS, or "self") | ("agg", Agg)"""
+    """base: ("prim", cname) | ("ptr", index into POINTERS, or "self") | ("ptrtag", "struct X") | ("agg", Agg)"""
     def __init__(self, name, base, dims=(), flex=False, bits=None):
         self.name, self.base, self.dims, self.flex, self.bits = name, base, list(dims), flex, bits
 
@@ -242,6 +252,8 @@ def field_text(f, owner_tag):
         return "%s %s : %d;" % (f.base[1], f.name, f.bits)
     if f.base[0] == "prim":
         return "%s %s%s;" % (f.base[1], f.name, suffix)
+    if f.base[0] == "ptrtag":
+        return "%s *%s%s;" % (f.base[1], f.name, suffix)
     if f.base[0] == "ptr":
         if f.base[1] == "self":
             return "struct %s *%s%s;" % (owner_tag, f.name, suffix) if owner_tag else "void *%s%s;" % (f.name, suffix)
@@ -313,7 +325,7 @@ def tokens(a, prim_info, ptr_info):
         if f.base[0] == "prim":
             s, al = prim_info[f.base[1]]
             t = ["p", str(s), str(al), "1" if f.base[1] in INTLIKE else "0"]
-        elif f.base[0] == "ptr":
+        elif f.base[0] in ("ptr", "ptrtag"):
             t = ["p", str(ptr_info[0]), str(ptr_info[1]), "0"]
         else:
             t = tokens(f.base[1], prim_info, ptr_info)
@@ -371,10 +383,13 @@ def cffi_type(ffi, path):
 # ----------------------------------------------------------------------------- the real backend
 
 def build_ffi(chunks):
+    """chunks: (text, pack, packed_kw) -> ffi.cdef(text, ...); ("typeof", type string, _) -> ffi.typeof(...)"""
     import cffi
     ffi = cffi.FFI()
     for text, pack, kw in chunks:
-        if pack == 0:
+        if text == "typeof":
+            ffi.typeof(pack)
+        elif pack == 0:
             ffi.cdef(text)
         elif kw:
             ffi.cdef(text, packed=True)
@@ -547,15 +562,21 @@ def run_batch(ctx, tops, name, oracle_only=False, only_top=False):
     cprims, cptr = cffi_prim_info(cffi.FFI())
     items, work = [], []
     for ci, top in enumerate(tops):
-        chunks = chunks_of(top)
-        tgts = [("%d.%d" % (ci, k), a, path) for k, (a, path) in enumerate(targets(top)[:1 if only_top else None])]
-        items.append((str(ci), chunks, tgts))
+        scen = top if isinstance(top, Scenario) else None
+        if scen:
+            chunks = scen.steps
+            tgts = [("%d.%d" % (ci, k), a, ("tag", a.kind, a.tag)) for k, a in enumerate(scen.aggs)]
+            items.append((str(ci), scen.c_chunks, tgts))
+        else:
+            chunks = chunks_of(top)
+            tgts = [("%d.%d" % (ci, k), a, path) for k, (a, path) in enumerate(targets(top)[:1 if only_top else None])]
+            items.append((str(ci), chunks, tgts))
         try:
             ffi = build_ffi(chunks)
         except Exception as e:
             ffi = e
         for tid, a, path in tgts:
-            case = case_of(top, a, path, tid)
+            case = scen.case(a) if scen else case_of(top, a, path, tid)
             if isinstance(ffi, Exception):
                 obs = ("err", type(ffi).__name__, str(ffi)[:200])
             else:
@@ -572,6 +593,8 @@ def run_batch(ctx, tops, name, oracle_only=False, only_top=False):
         toks_c = tokens(a, cprims, cptr)
         ctx.case(nontrivial_key(a, toks_c), sample={"type": case["type"], "chunks": case["chunks"]})
         ctx.count("aggregates")
+        if case.get("cell"):
+            ctx.count(case["cell"])
         ctx.count("union" if a.kind == "union" else "struct")
         if a.pack:
             ctx.count("packed")
@@ -630,6 +653,88 @@ def run_batch(ctx, tops, name, oracle_only=False, only_top=False):
         want = [g["members"][f.name] for f in flat_fields(a)]
         if (ssize, salign, smem) != (g["size"], g["align"], want):
             ctx.disagree(case, "gcc: %r" % ((g["size"], g["align"], want),), sl, "gcc program vs Spec/GccLayout.lean")
+
+
+# ----------------------------------------------------------------------------- which cdef() option applies to which aggregate
+
+class Scenario(object):
+    """A declaration spread over several cdef() calls / ffi.typeof() calls: `steps` is what cffi is given (in order),
+    `c_chunks` what gcc is given (`#pragma pack` around the definitions only), `aggs` the aggregates to compare."""
+    def __init__(self, steps, c_chunks, aggs, cell):
+        self.steps, self.c_chunks, self.aggs, self.cell = steps, c_chunks, aggs, cell
+
+    def case(self, a):
+        return {"steps": [list(x) for x in self.steps], "c_chunks": [list(x) for x in self.c_chunks],
+                "aggs": [x.to_json() for x in self.aggs], "cell": self.cell,
+                "decl": reroot(a).to_json(), "type": "%s %s" % (a.kind, a.tag),
+                "chunks": [[t, p] for t, p, _ in self.steps], "zero_size_agg": False}
+
+    @staticmethod
+    def from_case(c):
+        return Scenario([tuple(x) for x in c["steps"]], [tuple(x) for x in c["c_chunks"]],
+                        [Agg.from_json(x) for x in c["aggs"]], c["cell"])
+
+
+PACKINGS = [("none", 0, False), ("packed", 1, True), ("pack1", 1, False), ("pack2", 2, False), ("pack4", 4, False)]
+MENTION_KINDS = ["fwd", "typedef", "ptrfield", "funcarg", "typeof"]
+# every body has a member whose natural alignment exceeds every pack value used
+STRUCT_BODIES = [
+    [("a", "char", []), ("b", "long long", []), ("c", "short", []), ("d", "int", [])],
+    [("a", "char", []), ("b", "long double", []), ("c", "char", [])],
+    [("a", "short", []), ("b", "double", [2]), ("c", "char", [3]), ("d", "int", [])],
+]
+UNION_BODIES = [
+    [("a", "char", [9]), ("b", "long long", []), ("c", "int", [])],
+    [("a", "char", [17]), ("b", "long double", []), ("c", "short", [3])],
+]
+
+
+def mention_family():
+    """Deterministic (no randomness): the tag `T` is only MENTIONED in a first cdef()/typeof with packing P1 (forward
+    declaration, typedef, pointer member of another struct, pointer argument of a function, ffi.typeof("... T *")) and
+    DEFINED in a later cdef() with packing P2 != P1: the layout must be the one of P2, as gcc gives the same
+    definition under `#pragma pack(P2)`.  Also the reverse order of dependencies: A (under P1) holds a pointer to B,
+    which is defined later under P2 and points back to A."""
+    out = []
+    n = 0
+    for kind in ("struct", "union"):
+        bodies = STRUCT_BODIES if kind == "struct" else UNION_BODIES
+        for mk in MENTION_KINDS:
+            for n1, p1, kw1 in PACKINGS:
+                for n2, p2, kw2 in PACKINGS:
+                    if n1 == n2:
+                        continue
+                    n += 1
+                    tag = "m%d" % n
+                    body = bodies[n % len(bodies)]
+                    a = Agg(kind, tag, p2, kw2, "pre", [Field(nm, ("prim", ty), dims=dims) for nm, ty, dims in body])
+                    kt = "%s %s" % (kind, tag)
+                    mention = {"fwd": "%s;" % kt, "typedef": "typedef %s %s_t;" % (kt, tag),
+                               "ptrfield": "struct h%d { char c; %s *p; };" % (n, kt),
+                               "funcarg": "int fn%d(%s *, int);" % (n, kt)}.get(mk)
+                    if mk == "typeof":
+                        steps = [("struct h%d { char c; };" % n, p1, kw1), ("typeof", kt + " *", False)]
+                    else:
+                        steps = [(mention, p1, kw1)]
+                    defn = (agg_text(a) + ";", p2, kw2)
+                    steps.append(defn)
+                    c_chunks = [(mention or "struct h%d { char c; };" % n, 0, False), defn]
+                    out.append(Scenario(steps, c_chunks, [a], "mention:%s:%s->%s:%s" % (mk, n1, n2, kind)))
+    for kind in ("struct", "union"):
+        for n1, p1, kw1 in PACKINGS:
+            for n2, p2, kw2 in PACKINGS:
+                if n1 == n2:
+                    continue
+                n += 1
+                ka, kb = "struct ra%d" % n, "%s rb%d" % (kind, n)
+                A = Agg("struct", "ra%d" % n, p1, kw1, "pre",
+                        [Field("c", ("prim", "char")), Field("p", ("ptrtag", kb)), Field("x", ("prim", "long double"))])
+                B = Agg(kind, "rb%d" % n, p2, kw2, "pre",
+                        [Field("c", ("prim", "char"), dims=[9]), Field("d", ("prim", "double")),
+                         Field("back", ("ptrtag", ka))])
+                ch = [(agg_text(A) + ";", p1, kw1), (agg_text(B) + ";", p2, kw2)]
+                out.append(Scenario(ch, ch, [A, B], "mention:reverse-dependency:%s->%s:%s" % (n1, n2, kind)))
+    return out
 
 
 # ----------------------------------------------------------------------------- out-of-class probes (model only)
@@ -863,6 +968,8 @@ def shrink(ctx, failure, rounds=12):
     """Greedy one-member-at-a-time shrinking of a failing declaration; every round compiles one C program that
     contains all candidates.  Returns a (possibly smaller) failure of the same kind (known class or not)."""
     cur = failure
+    if failure["case"].get("steps"):
+        return cur            # a multi-cdef scenario: already minimal by construction
     known = CLASSES[ZERO_CLASS](failure["case"])
     try:
         for r in range(rounds):
@@ -898,6 +1005,7 @@ def correspond(ctx):
         for i in range(per):
             tops.append(Gen(ctx.rng, "c%d_" % i).declaration())
         run_batch(ctx, tops, "c01_batch_%d" % b)
+    run_batch(ctx, mention_family(), "c01_mention")
     probes(ctx, ctx.n(40, 400))
     direct(ctx, ctx.n(120, 2000))
     _order_failures(ctx)
@@ -905,7 +1013,10 @@ def correspond(ctx):
 
 def search(ctx):
     _ensure_finding(ctx)
+    run_batch(ctx, mention_family(), "c01_search_mention", oracle_only=True)
     for b in range(ctx.n(6, 40)):
+        if ctx.failures:
+            break
         tops = [Gen(ctx.rng, "c%d_" % i).declaration() for i in range(200)]
         run_batch(ctx, tops, "c01_search_%d" % b, oracle_only=True)
         if ctx.failures:
@@ -918,7 +1029,7 @@ def replay(ctx, obj):
     if case.get("probe") or case.get("direct"):
         print("out-of-class probe (model correspondence only): %r" % (case,))
         return 0
-    top = Agg.from_json(case["decl"])
+    top = Scenario.from_case(case) if case.get("steps") else Agg.from_json(case["decl"])
     before = len(ctx.failures)
     ctx.open_findings = []            # report everything
     run_batch(ctx, [top], "c01_replay", oracle_only=True, only_top=True)
